@@ -35,6 +35,14 @@ func vfDirected() map[string][][]byte {
 		h := []byte{'C', 'r', '2', '4', 2, 0, 0, 0, byte(pk), byte(pk >> 8), 0, 0, byte(sig), byte(sig >> 8), 0, 0}
 		return append(append(h, bytes.Repeat([]byte{'k'}, pk+sig)...), tail...)
 	}
+	// second lines of exactly 29 bytes (the length the Srt check asks for) with the separator anywhere in them:
+	// short, empty and overlong time stamps on either side
+	var srt29 [][]byte
+	for p := 0; p+5 <= 29; p++ {
+		l := []byte("00:02:16,61200:02:19,376xxxxx")[:24]
+		line := append(append(append([]byte{}, l[:p]...), []byte(" --> ")...), l[p:]...)
+		srt29 = append(srt29, []byte("1\n"+string(line)+"\nx\n"))
+	}
 	m := map[string][][]byte{
 		"CRX": {
 			crx(10, 8, "PK\x03\x04rest"), crx(10, 8, "PK\x03\x04"), crx(10, 8, "PK\x03"), crx(10, 8, ""), crx(10, 8, "XK\x03\x04"), crx(0, 0, "PK\x03\x04"),
@@ -65,14 +73,14 @@ func vfDirected() map[string][][]byte {
 			append(vfPad(ole, 4070), []byte("P\x00o\x00w\x00e\x00r\x00P\x00o\x00i\x00n\x00t\x00 D\x00o\x00c\x00u\x00m\x00e\x00n\x00t")...),
 			append(vfPad(ole, 1151), []byte("P\x00o\x00w\x00e\x00r\x00P\x00o\x00i\x00n\x00t\x00 D\x00o\x00c\x00u\x00m\x00e\x00n\x00t")...),
 		},
-		"Srt": {
+		"Srt": append(srt29,
 			srt("00:02:16,612 --> 00:02:19,376"), srt("00:02:16.612 --> 00:02:19,376"), srt("00:02:16,612 --> 00:02:19.376"),
 			srt("00:02:16,612 --> 00:02:1x,376"), srt("00:02:1x,612 --> 00:02:19,376"), srt("00:02:19,376 --> 00:02:16,612"),
 			srt("00:02:16,612 --> 00:02:16,612"), srt("00:02:16,612 -> 00:02:19,3760"), srt("00:02:16,612 --> 00:02:19,37"),
 			srt("00:02:16,612 --> 00:02:19,3766"), []byte("1\r\n00:02:16,612 --> 00:02:19,376\r\nx\r\n"), []byte("1\n00:02:16,612 --> 00:02:19,376"),
 			[]byte("1\n00:02:16,612 --> 00:02:19,376\n"), []byte("1\n00:02:16,612 --> 00:02:19,376\n\n"), []byte("2\n00:02:16,612 --> 00:02:19,376\nx\n"),
 			[]byte("11\n00:02:16,612 --> 00:02:19,376\nx\n"), []byte("\n1\n00:02:16,612 --> 00:02:19,376\nx\n"),
-		},
+		),
 	}
 	return m
 }
